@@ -246,6 +246,11 @@ def do_check(mod, prop, tier, seed, repo, workdir, jobs):
     for r in sorted(required):
         if counters.get(r, 0) == 0:
             inconclusive.append("deciding monitor %r observed no events" % r)
+    for k in sorted(counters):
+        # a check that catches its own oracle / harness contradicting itself says so with an event named "inconclusive:<what>":
+        # that is never a verdict about pycoin
+        if k.startswith("inconclusive:") and counters[k]:
+            inconclusive.append("%s (%d events)" % (k[len("inconclusive:"):], counters[k]))
     if evaluations == 0:
         inconclusive.append("no cases evaluated")
 
